@@ -244,15 +244,17 @@ def model_vo_targets():
     return sorted(set('%s/%s.vo' % m for m in mods))
 
 
-def run_lines(exe, lines, timeout=300, shards=1):
-    """Feed case lines to an executable, return output lines (one per case)."""
+def run_lines(exe, lines, timeout=300, shards=1, solo_timeout=180, max_timeouts=None):
+    """Feed case lines to an executable, return output lines (one per case).  `max_timeouts`: after that many cases were
+    decided as 'timeout' the remaining cases of the shard are not run ('not-run') -- for checks in which a hang IS the
+    violation (C19), so that a tree on which every case hangs is reported in minutes."""
     if not lines:
         return []
     if shards > 1 and len(lines) >= 4 * shards:
         import concurrent.futures
         chunks = [lines[i::shards] for i in range(shards)]
         with concurrent.futures.ThreadPoolExecutor(shards) as ex:
-            outs = list(ex.map(lambda c: run_lines(exe, c, timeout, 1), chunks))
+            outs = list(ex.map(lambda c: run_lines(exe, c, timeout, 1, solo_timeout, max_timeouts), chunks))
         res = [None] * len(lines)
         for k, o in enumerate(outs):
             res[k::shards] = o
@@ -262,7 +264,11 @@ def run_lines(exe, lines, timeout=300, shards=1):
     res = []
     rest = list(lines)
     restarts = 0
+    timeouts = 0
     while rest:
+        if max_timeouts is not None and timeouts >= max_timeouts:
+            res += ['not-run'] * len(rest)
+            break
         budget = max(timeout, 60 + 0.5 * len(rest))
         out, timed_out, rc = _run_once(exe, rest, budget)
         res += out
@@ -276,11 +282,12 @@ def run_lines(exe, lines, timeout=300, shards=1):
         if out and timed_out:
             continue                      # progress was made: go on from the first unanswered case
         # no progress (or a crash): decide the first unanswered case on its own
-        solo, t1, rc1 = _run_once(exe, rest[:1], 180)
+        solo, t1, rc1 = _run_once(exe, rest[:1], solo_timeout)
         if len(solo) == 1:
             res += solo
         else:
             res.append('timeout' if t1 else 'crash(rc=%s)' % rc1)
+            timeouts += 1 if t1 else 0
         rest = rest[1:]
     return res
 
